@@ -10,6 +10,7 @@ import (
 	"bytes"
 	"fmt"
 	"sort"
+	"strings"
 	"sync"
 	"sync/atomic"
 	"time"
@@ -483,7 +484,47 @@ func (res *streamResult) oracleSnapshots(w *W) (string, bool) {
 				sawKF = true
 				continue
 			}
-			return fmt.Sprintf("snapshot %d: restored block %d equals no prefix state S[%d..%d] of the %d commits applied to it (%s)", si, b, window[b][0], window[b][1], len(byBlock[b]), firstDiff[b]), false
+			// post-mortem detail (the schedule cannot be replayed): restored rows, the commits of the window
+			// with their operations, and the difference against every prefix state of the window
+			var sb strings.Builder
+			fmt.Fprintf(&sb, "snapshot %d (call seq %d, return seq %d): restored block %d equals no prefix state S[%d..%d] of the %d commits applied to it; first: %s\n", si, s.call, s.ret, b, window[b][0], window[b][1], len(byBlock[b]), firstDiff[b])
+			sbk := blockOf(st, b)
+			fmt.Fprintf(&sb, "restored rows of the block: %v\n", sbk.Rows)
+			for _, off := range sbk.Rows {
+				fmt.Fprintf(&sb, "  row %d:", off)
+				for _, cs := range res.sv.Cols {
+					if v, ok := sbk.Cells[cs.Name][off]; ok {
+						fmt.Fprintf(&sb, " %s=%s", cs.Name, v.show(cs.Kind))
+					}
+				}
+				if reserved[off] {
+					sb.WriteString(" (offset handed out by an insert of the workload)")
+				}
+				sb.WriteString("\n")
+			}
+			lo := window[b][0] - 3
+			if lo < 0 {
+				lo = 0
+			}
+			for i := lo; i < window[b][1]+3 && i < len(byBlock[b]); i++ {
+				cm := byBlock[b][i]
+				ack, _ := res.run.acks.Load(cm.Tx)
+				desc := "?"
+				if sp := res.spec(cm.Tx); sp != nil {
+					desc = TxnSpec{Ops: opsInBlock(*sp, b)}.String()
+				}
+				fmt.Fprintf(&sb, "  commit #%d seq=%d id=..%d tx=%d ack=%v %s\n", i+1, cm.Seq, cm.ID%1000000, cm.Tx, ack, desc)
+			}
+			res.foldAll(func(bb uint32, k int, m *Model) {
+				if bb == b && k >= window[b][0] && k <= window[b][1] {
+					fmt.Fprintf(&sb, "  vs S[%d]: %s\n", k, cmpBlock(st, m, b))
+				}
+			})
+			out := sb.String()
+			if len(out) > 12000 {
+				out = out[:12000] + "..."
+			}
+			return out, false
 		}
 	}
 	if sawKF {
